@@ -220,7 +220,10 @@ Definition mon10_step (cf : lcfg) (cur : status) (s : m10) (e : lev) : m10 :=
           mkM10 (a_open s) (a_ustart s) (a_fatal s) (a_trans s) (a_kind s) (a_hist s) (a_ended s) true
                 (a_forcecall s) (a_shutcall s) (a_ustop s) (a_shut s) calls (a_attempts s) (a_lastrec s) (a_v s)
       | KForce =>
-          mkM10 (a_open s) (a_ustart s) (a_fatal s) (a_trans s) (a_kind s) (a_hist s) (a_ended s) (a_stopcall s)
+          (* the force stop Kills the tomb of the run it finds: a fatal cause of THAT run (counted when the call
+             is issued: by the time the call returns a recovery may already have put a new run up) *)
+          mkM10 (a_open s) (a_ustart s) (if live then S (a_fatal s) else a_fatal s) (a_trans s)
+                (if live && N.eqb (a_kind s) 0 then R_kind_force else a_kind s) (a_hist s) (a_ended s) (a_stopcall s)
                 true (a_shutcall s) (a_ustop s) (a_shut s) calls (a_attempts s) (a_lastrec s) (a_v s)
       | KStopAll =>
           mkM10 (a_open s) (a_ustart s) (a_fatal s) (a_trans s) (a_kind s) (a_hist s) (a_ended s) (a_stopcall s)
@@ -250,8 +253,7 @@ Definition mon10_step (cf : lcfg) (cur : status) (s : m10) (e : lev) : m10 :=
       | KForce =>
           if is_nil e
           then let s := a_flag (wasrec && a_open s && negb (a_ustart s)) R_userstop_dead s in
-               mkM10 (a_open s) (a_ustart s) (if live then S (a_fatal s) else a_fatal s) (a_trans s)
-                     (if live && N.eqb (a_kind s) 0 then R_kind_force else a_kind s) (a_hist s) (a_ended s)
+               mkM10 (a_open s) (a_ustart s) (a_fatal s) (a_trans s) (a_kind s) (a_hist s) (a_ended s)
                      (a_stopcall s) (a_forcecall s) (a_shutcall s) (Some live) (a_shut s) (a_calls s) (a_attempts s)
                      (a_lastrec s) (a_v s)
           else s
